@@ -224,6 +224,12 @@ Definition jsonclass_key : val := VStr "__jsonclass__".
 Definition has_dict (d : classdef) : bool :=
   match c_kind d with KDict | KSer _ => true | _ => false end.
 
+(** which class of the MRO defines the serialisation method / the ignore attribute of the given name *)
+Definition ser_pred (sm : str) (d' : classdef) : bool :=
+  negb (String.eqb sm "") && String.eqb (c_ser_name d') sm.
+Definition ign_pred (ia : str) (d' : classdef) : bool :=
+  match c_ign d' with Some (n, _) => String.eqb n ia | None => false end.
+
 (** ** Traversal combinators.  The comprehensions and loops of dump / load are written once,
     over the function applied to the members, so that the recursive models below stay
     structurally recursive (nested recursion through these, as through [List.map]). *)
@@ -258,8 +264,7 @@ Section Dump.
     let own := match flookup ia fields with
                | Some x => x
                | None =>
-                   match mro_find (e_ctab E) c
-                           (fun d => match c_ign d with Some (n, _) => String.eqb n ia | None => false end) with
+                   match mro_find (e_ctab E) c (ign_pred ia) with
                    | Some d => match c_ign d with Some (_, x) => x | None => VList [] end
                    | None => VList []
                    end
@@ -323,7 +328,7 @@ Section Dump.
                 match flookup sm fields with
                 | Some _ => Raise EType                             (* 172-176: the attribute is not callable *)
                 | None =>
-                    match mro_find (e_ctab E) c (fun d' => negb (String.eqb sm "") && String.eqb (c_ser_name d') sm) with
+                    match mro_find (e_ctab E) c (ser_pred sm) with
                     | Some ds =>                                    (* 172-178: params, attrs = serialize() *)
                         do pa <- serialize_call ds fields;
                         Ok (descriptor_dict name (fst pa) (map (fun kx => (VStr (fst kx), snd kx)) (snd pa)))
@@ -485,6 +490,19 @@ Fixpoint last_str (l : list str) : str :=
   | _ :: r => last_str r
   end.
 
+(** 258-291: the class named [s]: local table when it is non-empty and the name has no dot, import otherwise *)
+Definition resolve_name (E : pyenv) (classes : list (str * str)) (s : str) : res str * list event :=
+  let parts := split_dot s in
+  if truthy (VDict (map (fun kc => (VStr (fst kc), VStr (snd kc))) classes))
+     && Nat.eqb (length parts) 1
+  then (match sassoc s classes with                       (* 260-267 *)
+        | Some cid => Ok cid
+        | None => Raise ETranslation
+        end, [])
+  else let cls := last_str parts in                       (* 270-291 *)
+       let tree := join "." (removelast parts) in
+       (resolve_import E tree cls, [EvImport tree]).
+
 (** 245-312: everything between the membership test and the pop; the argument is not written *)
 Definition descriptor_head (E : pyenv) (classes : list (str * str)) (m : list (val * val))
   : res val * list event :=
@@ -502,17 +520,7 @@ Definition descriptor_head (E : pyenv) (classes : list (str * str)) (m : list (v
       | VStr s =>
           if negb (valid_name s) then (Raise ETranslation, [])        (* 252-256 *)
           else
-            let parts := split_dot s in
-            let '(rc, ev) :=
-              if truthy (VDict (map (fun kc => (VStr (fst kc), VStr (snd kc))) classes))
-                 && Nat.eqb (length parts) 1
-              then (match sassoc s classes with                       (* 260-267 *)
-                    | Some cid => Ok cid
-                    | None => Raise ETranslation
-                    end, [])
-              else let cls := last_str parts in                       (* 270-291 *)
-                   let tree := join "." (removelast parts) in
-                   (resolve_import E tree cls, [EvImport tree]) in
+            let '(rc, ev) := resolve_name E classes s in
             match rc with
             | Raise e => (Raise e, ev)
             | Ok cid =>
@@ -780,6 +788,96 @@ Definition frame_events (V : variant) (E : pyenv) (cl : list (str * str)) (f : f
   | FList pre _ | FTuple pre _ | FSet pre _ | FFrozen pre _ =>
       flat_map (fun x => lres_events (jc_load_m V E cl x)) pre
   | FDict pre _ _ => flat_map (fun kv => lres_events (jc_load_m V E cl (snd kv))) pre
+  end.
+
+(** ** C07: supported object graphs *)
+
+(** normalisation that also looks inside instances: what a reloaded object graph is compared with *)
+Fixpoint normi (v : val) : val :=
+  match v with
+  | VList l | VTuple l | VSet l | VFrozen l => VList (map normi l)
+  | VDict m => VDict (map (fun kv => (fst kv, normi (snd kv))) m)
+  | VInst c fs => VInst c (map (fun kv => (fst kv, normi (snd kv))) fs)
+  | _ => v
+  end.
+
+Definition fields_eqb (a b : list (str * val)) : bool :=
+  list_eqb (fun x y => String.eqb (fst x) (fst y) && val_eqb (snd x) (snd y)) a b.
+
+Fixpoint nodup_str (l : list str) : bool :=
+  match l with
+  | [] => true
+  | x :: r => negb (mem_str x r) && nodup_str r
+  end.
+
+(** the name dump writes for class [c] is accepted by load and leads back to [c] *)
+Definition resolves (E : pyenv) (cl : list (str * str)) (d : classdef) (c : str) : bool :=
+  name_ok (VStr (dump_name d)) &&
+  match fst (resolve_name E cl (dump_name d)) with
+  | Ok c' => String.eqb c' c
+  | Raise _ => false
+  end.
+
+Definition is_some {A} (o : option A) : bool := match o with Some _ => true | None => false end.
+
+(** field names are ordinary attribute names, each occurring once, and setattr accepts them *)
+Definition field_names_ok (E : pyenv) (c : str) (d : classdef) (fields : list (str * val)) : bool :=
+  nodup_str (map fst fields) &&
+  forallb (fun kx => negb (dunder (fst kx)) && (has_dict d || mem_str (fst kx) (real_slots (e_ctab E) c))) fields.
+
+(** [supported E cl sm ia v]: the domain of C07 for the class table [E], the local table [cl] and the
+    configured names — primitives; containers of supported values; dicts without a "__jsonclass__" key;
+    Decimals; enum members; instances of
+    - automatically serialised classes (attribute-dict or slotted, argument-less constructor, no ignore
+      list, every slot assigned) whose field values are primitives or containers (beans only inside those),
+    - classes with a serialisation method whose constructor arguments and attribute map are JSON values,
+    such that constructing the class anew and assigning the dumped attributes yields the fields again
+    (for automatically serialised classes this follows from the instance carrying the constructor's
+    attributes first: [reload_of_wf_instance]) and such that the dumped class name leads back to the class. *)
+Fixpoint supported (E : pyenv) (cl : list (str * str)) (sm ia : str) (v : val) {struct v} : bool :=
+  match v with
+  | VNone | VBool _ | VInt _ | VFlt _ | VStr _ => true
+  | VList l | VTuple l | VSet l | VFrozen l => forallb (supported E cl sm ia) l
+  | VDict m => negb (dhas m "__jsonclass__") && forallb (fun kv => supported E cl sm ia (snd kv)) m
+  | VDec s =>
+      match find_class (e_ctab E) "decimal.Decimal" with
+      | Some d => match c_kind d with KDecimal => true | _ => false end && dec_ok s && resolves E cl d "decimal.Decimal"
+      | None => false
+      end
+  | VEnum c m =>
+      match find_class (e_ctab E) c with
+      | Some d => match c_kind d with KEnum => true | _ => false end &&
+                  match find (py_eq m) (c_members d) with Some m' => val_eqb m' m | None => false end &&
+                  resolves E cl d c
+      | None => false
+      end
+  | VInst c fields =>
+      match find_class (e_ctab E) c with
+      | None => false
+      | Some d =>
+          resolves E cl d c && negb (is_some (flookup sm fields)) && field_names_ok E c d fields &&
+          match mro_find (e_ctab E) c (ser_pred sm) with
+          | Some ds =>
+              match c_kind d with KSer _ => true | _ => false end &&
+              list_eqb String.eqb (c_params ds) (c_params d) &&
+              forallb (fun kx => is_json (snd kx) && no_descriptor (snd kx)) fields &&
+              forallb (fun p => is_some (flookup p fields)) (c_params d) &&
+              fields_eqb (fset_all (ctor_fields (e_ctab E) c
+                                      (map (fun p => (p, match flookup p fields with Some x => x | None => VNone end)) (c_params d)))
+                                   (filter (fun kx => negb (mem_str (fst kx) (c_params d))) fields))
+                         fields
+          | None =>
+              match c_kind d with KDict | KSlot => true | _ => false end &&
+              match c_params d with [] => true | _ => false end &&
+              negb (is_some (flookup ia fields)) &&
+              negb (is_some (mro_find (e_ctab E) c (ign_pred ia))) &&
+              forallb (fun s => is_some (flookup s fields)) (slots_finder fixed (e_ctab E) c) &&
+              forallb (fun kx => supported_ty (type_of (snd kx)) && supported E cl sm ia (snd kx)) fields &&
+              fields_eqb (fset_all (ctor_fields (e_ctab E) c []) (map (fun kv => (fst kv, normi (snd kv))) fields))
+                         (map (fun kv => (fst kv, normi (snd kv))) fields)
+          end
+      end
+  | VOpaque _ => false
   end.
 
 Definition is_prim (v : val) : bool :=
